@@ -42,6 +42,12 @@ pub fn run(ctx: &Ctx) -> i32 {
         let mut m = base.clone();
         m.cons.glasses = vec![glass("gl", u_g, g_n)];
         m.cons.frames = vec![frame("fr", u_f)];
+        if i % 2 == 1 {
+            // every other model lists another glazing and another frame first: an element is found by its id, not by
+            // where an element with that id was found in the model looked at before
+            m.cons.glasses.insert(0, glass("decoy-gl", 9.9, 0.99));
+            m.cons.frames.insert(0, frame("decoy-fr", 9.9));
+        }
         let gid = match gref {
             0 => uid("gl"),
             1 => nil(),
@@ -230,7 +236,7 @@ pub fn run(ctx: &Ctx) -> i32 {
     ctx.nontriv(nt);
     ctx.finish(
         "model_checking",
-        "full Cartesian product f_f{0,.1,.25,.5,1} x dU{0,10,50} x Uglass{.6,1,3.3,5.7} x Uframe{.8,2.2,5.7,7} x g_n{.2,.5,.85,0 (opaque panel)} x g_glshwi{None,.05,.337,0 (opaque shading)} x glass ref{ok,nil,dangling} x frame ref{ok,nil,dangling}, each construction observed directly (WinCons::u_value/g_glwi/g_glshwi), again after a JSON round trip of the model, and inside a one-window box model through props.wincons, K_data.windows and q_soljul_data; tuples are distinct by construction; all ordered pairs of a 96-construction alphabet (f_f{0,.25} x dU{0,10} x g_glshwi(3) x glazing{gl,gl2,nil,dangling} x frame{fr,nil}) as two constructions of one model with one window each, every props.wincons entry against the formula for that construction alone and the mean window U in K against the two values (5.7 where a construction has none); non-trivial = glazing and frame both resolve (formula path)",
+        "full Cartesian product f_f{0,.1,.25,.5,1} x dU{0,10,50} x Uglass{.6,1,3.3,5.7} x Uframe{.8,2.2,5.7,7} x g_n{.2,.5,.85,0 (opaque panel)} x g_glshwi{None,.05,.337,0 (opaque shading)} x glass ref{ok,nil,dangling} x frame ref{ok,nil,dangling}, each construction observed directly (WinCons::u_value/g_glwi/g_glshwi), again after a JSON round trip of the model, and inside a one-window box model through props.wincons, K_data.windows and q_soljul_data; tuples are distinct by construction (every other model lists a decoy glazing and frame first); all ordered pairs of a 96-construction alphabet (f_f{0,.25} x dU{0,10} x g_glshwi(3) x glazing{gl,gl2,nil,dangling} x frame{fr,nil}) as two constructions of one model with one window each, every props.wincons entry against the formula for that construction alone and the mean window U in K against the two values (5.7 where a construction has none); non-trivial = glazing and frame both resolve (formula path)",
         true,
         json!({"space_size": n, "pairs": np}),
     )
